@@ -234,18 +234,18 @@ Lemma rstep_refines r n o :
 Proof.
   intros I Hok Hfit Hn. destruct o as [|k|id c|c].
   - cbn [nadds] in Hn. destruct (add_inv r n I) as (r' & E & I' & Ha & _); [lia|].
-    cbn [rstep]. rewrite E. cbn [fst snd]. repeat split; try assumption. cbn [nadds]. lia.
+    cbn [rstep]. rewrite E. cbn [fst snd]. refine (conj _ (conj _ (conj _ _))); try assumption; try reflexivity; cbn [nadds]; lia.
   - cbn [op_ok op_fits] in *. apply N.ltb_lt in Hok. apply N.leb_le in Hfit.
     destruct (resize_inv r n k I) as (r' & E & I' & Ha); [split; assumption|].
-    cbn [rstep]. rewrite E. cbn [fst snd]. repeat split; try assumption. cbn [nadds]. lia.
+    cbn [rstep]. rewrite E. cbn [fst snd]. refine (conj _ (conj _ (conj _ _))); try assumption; try reflexivity; cbn [nadds]; lia.
   - pose proof (query_exact r n id c I) as Hq.
     assert (Hs : fst (rstep (r, n) (RQuery id c)) = (r, n))
       by (cbn [rstep]; destruct (getEventsFromID r id c); reflexivity).
-    rewrite Hs. repeat split; try assumption. cbn [nadds]. lia.
+    rewrite Hs. refine (conj _ (conj _ (conj _ _))); try assumption; try reflexivity; cbn [nadds]; lia.
   - pose proof (recent_exact r n c I) as Hq.
     assert (Hs : fst (rstep (r, n) (RRecent c)) = (r, n))
       by (cbn [rstep]; destruct (getRecentEvents r c); reflexivity).
-    rewrite Hs. repeat split; try assumption. cbn [nadds]. lia.
+    rewrite Hs. refine (conj _ (conj _ (conj _ _))); try assumption; try reflexivity; cbn [nadds]; lia.
 Qed.
 
 Lemma nadds_cons o t : nadds (o :: t) = nadds [o] + nadds t.
